@@ -7,7 +7,7 @@ CFG = dict(
     header=H + "From NV.Common Require Import WalFormat.\nFrom NV.C10 Require Import Model Run.\nOpen Scope N_scope.",
     kinds={"gens": ("gens_case", "check_gens")},
     known_classes={},
-    shard=4, no_enlarge=True,
+    shard=4,
     rule="seeded sequences of start_election / RequestVote / RequestVoteResponse / AppendEntries (consistent, conflicting, inconsistent prev) / AppendEntriesResponse / become_leader / propose on a real RaftNode::with_wal; the real WAL file truncated at EVERY byte offset of each generation's appends; node restarted (with_wal + RaftRecoveryState::from_wal) and probed with a RequestVote; up to three crash generations",
     trusted_base=COMMON_TB + [
         "modelled, not verified: bitcode payload (de)serialisation (premise deser (ser e) = Some e; the harness supplies the real payload bytes), crc32fast (concrete Gallina CRC-32 compared byte-for-byte with every real log file), the file system below 'a file is a byte string; a crash keeps a prefix of unsynced appends'; read-only accessors verif_log_image / verif_voted_for (hook 3b917115)",
